@@ -10,14 +10,16 @@ spec:      spec/PkgRelation.tla        structures (conjunction of alternatives o
 model checking (closed): one focus atom ranging over ALL 3612 combinations of the optional parts
            (2 x {none, 5 operators} x arch lists of 1..2 plain/negated entries x formulas of 1..2
            groups of 1..2 plain/negated terms) at every position of every list shape (quick: 1..2
-           conjuncts x 1..2 alternatives with at most 3 atoms, context atoms bare names, 39 727
+           conjuncts x 1..2 alternatives with at most 2 atoms, context atoms bare names, 18 058
            structures; thorough:
            1..3 x 1..2, context atoms bare / with every part, 368 350 structures); in every state
            Inverse, NoWarning, Stable, TokensWellFormed.
            Spec-level negative controls, re-run in every check (each must make TLC report the named
            invariant): RestrictionsFirst -> NoWarning and Stable, IgnoreNegation -> Inverse,
-           PipeFirst -> Inverse; PkgRelationMemo: SharedNested (+ DeepStore) -> MemoTransparent
-           (the quick tier leaves out RestrictionsFirst -> Stable and the DeepStore variant).
+           PipeFirst -> Inverse, FormatInKeyOrder -> FormatIgnoresKeyOrder (over all 24 orders of
+           the optional parts); PkgRelationMemo: SharedNested (+ DeepStore) -> MemoTransparent
+           (the quick tier leaves out RestrictionsFirst -> Stable and the DeepStore variant; the
+           thorough tier also model-checks the control configuration with every switch off).
 binding:   (a) every CASE line of TLC (the structure and its expected token string) is concretized
                (package names [a-z0-9][a-z0-9+.-]*, versions valid per DESIGN D2, architecture
                names, qualifiers, lower-case profile names) and replayed:
@@ -41,6 +43,18 @@ history:   spec/PkgRelationMemo.tla models a memo layer between caller and refer
            trip, and str(r) is compared before / after formatting an edited deep copy of r (which
            makes its own round trip): all under the same verdicts; in (b) TLC validates the later
            results against the memo-free Parse (steps 5 and 6 of TracePkgRelation).
+concretization dimensions the abstract structure does not have (PkgRelation.tla: Format is a
+           function of the abstract structure only; negative control FormatInKeyOrder):
+           key insertion order of the input dicts (all 120 orders of the five keys over a run, a
+           different one per atom; parsed dicts re-ordered by d[k] = d.pop(k)): equal structures
+           must format identically and parse back; container types (tuples for the lists, plain
+           tuples for the entries: same string where the formatter accepts them, rejection is
+           unspecified); sizes per notes/SIZE_STRESS.md: payloads of boundary lengths 1 .. 8193,
+           epochs of 2 .. 19 digits with leading zeros, boundary numbers up to 10**18, 9 .. 101
+           conjuncts / alternatives / arch entries / groups / terms, identical items -- in the
+           replay (every 16th case, thorough 8th; big counts by repeating the case's items) and
+           in the recorder (4 % of the payloads; 10 / 100 big-count structures per run).  Tokens
+           are class symbols with ids, so TLC's expectation is length-independent by construction.
 verdict observables: parse_relations(str(r)) == r (TLC: Inverse), no warning (NoWarning), second
            string == first string (Stable), for every call of a history (MemoTransparent); any
            exception.
@@ -67,8 +81,8 @@ import core
 
 MANIFEST = dict(
     technique="TLA+ specs PkgRelation + PkgRelationMemo (formatter as token sequence, the dependency regex as an automaton over token kinds with its optional groups in fixed order, the comma/pipe/blank/restriction splitters) model-checked by TLC over the closed space of all optional-part combinations x list shapes; every TLC case replayed into PkgRelation.str/parse_relations with concretized payloads; recorded executions on deeper random structures validated by TLC (TracePkgRelation); a memo layer with shared nested lists as history model, histories with in-place edits of returned structures replayed and recorded",
-    text="TLC enumerates every relation made of one focus atom -- all 3612 combinations of architecture qualifier, version constraint with each of the five operators, architecture lists of 1-2 plain or negated entries and restriction formulas of 1-2 groups of 1-2 plain or negated terms -- at every position of every list shape up to 3 conjuncts of 2 alternatives, surrounded by context atoms, and checks in each state Parse(Format(r)) = r, that the parser's warning fallback is never taken and Format(Parse(Format(r))) = Format(r); Parse is the one big regex written as an automaton over token kinds (name, qualifier, operator, version, arch, '!', profile, brackets, separators, blanks) with exactly the blank tolerance of the code. Each enumerated structure carries TLC's expected token string and is replayed into the real PkgRelation.str / parse_relations with package names over [a-z0-9+.-], versions with epoch, '~', '+' and hyphenated revisions, real architecture names, qualifiers and lower-case profile names: the parse must equal the structure exactly, without a warning, and formatting again must give the same string. In the other direction random deeper structures (5x4 atoms, 3 arch entries, 3x3 restriction terms) are formatted and parsed by the real code, the strings are tokenized independently and TLC must explain the parsed-back structure with Parse and find it equal to the input. The quick tier enumerates lists of up to 2 conjuncts of 2 alternatives and 3 atoms with bare-name context atoms (39 727 structures), the thorough tier up to 3 x 2 with bare and fully-equipped context atoms (368 350 structures).",
-    note="Characters inside a payload token are sampled, not enumerated; profile names are lower case (DESIGN D3: the parser lower-cases them). The exact blanks written by the formatter are diagnostic only (drift). Trusted: TLC, the concretizer, the small context-sensitive tokenizer used for the recorded strings (a wrong tokenization is rejected by TLC, never accepted). A diagnostic leg (never an alarm) feeds strings with randomly changed blanks to the real parser and lets TLC predict the outcome, warning path included. The round trip is also checked as a history: a small TLA+ model of a memo layer with object identity (PkgRelationMemo) states that no earlier call or caller-side edit may influence Parse; after every replayed case and every recorded execution the returned structure is edited in place, the same string is parsed twice more and a relation sharing an alternative makes the round trip, under the same verdicts. Six spec-level negative controls (four in the quick tier) and twelve corrupted control traces are required to fail in every run.",
+    text="TLC enumerates every relation made of one focus atom -- all 3612 combinations of architecture qualifier, version constraint with each of the five operators, architecture lists of 1-2 plain or negated entries and restriction formulas of 1-2 groups of 1-2 plain or negated terms -- at every position of every list shape up to 3 conjuncts of 2 alternatives, surrounded by context atoms, and checks in each state Parse(Format(r)) = r, that the parser's warning fallback is never taken and Format(Parse(Format(r))) = Format(r); Parse is the one big regex written as an automaton over token kinds (name, qualifier, operator, version, arch, '!', profile, brackets, separators, blanks) with exactly the blank tolerance of the code. Each enumerated structure carries TLC's expected token string and is replayed into the real PkgRelation.str / parse_relations with package names over [a-z0-9+.-], versions with epoch, '~', '+' and hyphenated revisions, real architecture names, qualifiers and lower-case profile names: the parse must equal the structure exactly, without a warning, and formatting again must give the same string. In the other direction random deeper structures (5x4 atoms, 3 arch entries, 3x3 restriction terms) are formatted and parsed by the real code, the strings are tokenized independently and TLC must explain the parsed-back structure with Parse and find it equal to the input. The quick tier enumerates lists of up to 2 atoms (one alternative, two alternatives, two conjuncts) with bare-name context atoms (18 058 structures), the thorough tier up to 3 x 2 with bare and fully-equipped context atoms (368 350 structures).",
+    note="Characters inside a payload token are sampled, not enumerated; profile names are lower case (DESIGN D3: the parser lower-cases them). The exact blanks written by the formatter are diagnostic only (drift). Trusted: TLC, the concretizer, the small context-sensitive tokenizer used for the recorded strings (a wrong tokenization is rejected by TLC, never accepted). A diagnostic leg (never an alarm) feeds strings with randomly changed blanks to the real parser and lets TLC predict the outcome, warning path included. The round trip is also checked as a history: a small TLA+ model of a memo layer with object identity (PkgRelationMemo) states that no earlier call or caller-side edit may influence Parse; after every replayed case and every recorded execution the returned structure is edited in place, the same string is parsed twice more and a relation sharing an alternative makes the round trip, under the same verdicts. Input dicts are built with all 120 key insertion orders, tuple / plain-tuple containers and size-stressed payloads and counts (boundary lengths up to 8193 characters, epochs up to 19 digits, up to 101 conjuncts / alternatives / entries). Seven spec-level negative controls (five in the quick tier) and twelve corrupted control traces are required to fail in every run.",
     design="5 (C13)")
 
 OPS = ["<<", "<=", "=", ">=", ">>"]
@@ -83,7 +97,7 @@ FIXED_TEXT = {"colon": ":", "lpar": "(", "rpar": ")", "lbr": "[", "rbr": "]", "l
               "comma": ",", "pipe": "|", "sp": " "}
 PAYLOAD_KINDS = ("name", "qual", "ver", "arch", "prof")
 NEG_CONTROLS = [("RestrictionsFirst", "NoWarning"), ("RestrictionsFirst", "Stable"),
-                ("IgnoreNegation", "Inverse"), ("PipeFirst", "Inverse")]
+                ("IgnoreNegation", "Inverse"), ("PipeFirst", "Inverse"), ("FormatInKeyOrder", "FormatIgnoresKeyOrder")]
 
 # ------------------------------------------------------------------ concretization
 NAME_POOL = ["libc6", "g++", "libstdc++6", "python3.11-dev", "0ad", "4ti2", "a2ps", "libgtk-3-0", "x11-common",
@@ -104,34 +118,77 @@ CANON = {"name": ["a%d" % i for i in range(1, 40)],
          "prof": PROF_POOL}
 
 
-def gen_name(rng):
-    if rng.random() < 0.5:
-        return rng.choice(NAME_POOL)
-    n = rng.choice((1, 1, 2, 3, 5, 8, 14))
-    return rng.choice(NAME_REST[:36]) + "".join(rng.choice(NAME_REST) for _ in range(n))
+# size dimension of the concretization (notes/SIZE_STRESS.md): the tokens of the specification are
+# class symbols with an id, so the expectation TLC derives is length-independent by construction
+BOUNDARY_LENGTHS = (1, 2, 7, 8, 9, 15, 16, 17, 31, 32, 33, 63, 64, 65, 71, 72, 73, 79, 80, 81, 127, 128, 129,
+                    255, 256, 257, 1023, 1024, 1025, 4095, 4096, 4097, 8191, 8192, 8193)
+BOUNDARY_NUMBERS = (0, 9, 10, 99, 100, 2 ** 15, 2 ** 16, 2 ** 31 - 1, 2 ** 31, 2 ** 32 - 1, 2 ** 32, 2 ** 63 - 1,
+                    2 ** 63, 10 ** 18)
+BOUNDARY_COUNTS = (9, 10, 11, 16, 17, 31, 32, 33, 99, 100, 101)
 
 
-def gen_version(rng):
+def boundary_length(rng):
+    """heavy-tailed: mostly up to 81, regularly 127..257, now and then 1023..8193"""
+    r = rng.random()
+    pool = BOUNDARY_LENGTHS[:20] if r < 0.6 else BOUNDARY_LENGTHS[20:26] if r < 0.88 else BOUNDARY_LENGTHS[26:]
+    return rng.choice(pool)
+
+
+def gen_epoch(rng, stress=False):
+    r = rng.random()
+    if not stress and r < 0.6:
+        return str(rng.choice((0, 1, 2, 10, 2024)))
+    if r < 0.5:
+        e = str(rng.choice(BOUNDARY_NUMBERS))
+    else:                                           # 2 .. 12 digits
+        e = "".join(rng.choice("0123456789") for _ in range(rng.randint(2, 12)))
+    if rng.random() < 0.25:
+        e = "0" * rng.choice((1, 2, 5)) + e           # leading zeros
+    return e
+
+
+def _word(rng, first, rest, n):
+    return rng.choice(first) + "".join(rng.choice(rest) for _ in range(n - 1))
+
+
+def gen_name(rng, length=None):
+    if length is None:
+        if rng.random() < 0.5:
+            return rng.choice(NAME_POOL)
+        length = rng.choice((1, 1, 2, 3, 5, 8, 14)) + 1
+    return _word(rng, NAME_REST[:36], NAME_REST, max(length, 2))    # Policy: at least two characters
+
+
+def gen_version(rng, length=None):
     """valid per DESIGN D2: [0-9]+: ? upstream over [A-Za-z0-9.+~] plus '-' (and ':' only with an epoch),
     then, if a hyphen is present, a non-empty revision over [A-Za-z0-9+.~] after the last one"""
-    epoch = rng.random() < 0.35
+    stress = length is not None
+    epoch = rng.random() < (0.6 if stress else 0.35)
     revision = rng.random() < 0.6
     alpha = VER_UP + ("-" if revision else "") + (":" if epoch and rng.random() < 0.3 else "")
     first = rng.choice("0123456789") if rng.random() < 0.85 else rng.choice(VER_UP)
-    up = first + "".join(rng.choice(alpha) for _ in range(rng.choice((0, 1, 2, 3, 5, 9))))
-    v = up
+    nrev = rng.choice((1, 1, 2, 4)) if not stress else rng.choice((1, 2, max(1, length // 2)))
+    nup = rng.choice((0, 1, 2, 3, 5, 9)) if not stress else max(0, length - 1 - (nrev + 1 if revision else 0))
+    v = first + "".join(rng.choice(alpha) for _ in range(nup))
     if revision:
-        v += "-" + "".join(rng.choice(VER_UP) for _ in range(rng.choice((1, 1, 2, 4))))
+        v += "-" + "".join(rng.choice(VER_UP) for _ in range(nrev))
     if epoch:
-        v = str(rng.choice((0, 1, 2, 10, 2024))) + ":" + v
+        v = gen_epoch(rng, stress) + ":" + v
     return v
 
 
-def gen_payload(rng, kind):
+def gen_payload(rng, kind, length=None):
+    """length None: ordinary payload; otherwise a payload of (about) that many characters"""
     if kind == "name":
-        return gen_name(rng)
+        return gen_name(rng, length)
     if kind == "ver":
-        return gen_version(rng)
+        return gen_version(rng, length)
+    if length is not None:
+        if kind == "qual":
+            return _word(rng, NAME_REST[:36], NAME_REST[:36] + "-", length)
+        if kind == "arch":
+            return _word(rng, NAME_REST[:36], NAME_REST[:36] + "-", length)
+        return _word(rng, NAME_REST[:36], NAME_REST, length)           # lower-case profile name
     if kind == "qual":
         return rng.choice(QUAL_POOL)
     if kind == "arch":
@@ -149,7 +206,9 @@ class Conc:
         self.rev = {k: {s: i for i, s in enumerate(v) if i} for k, v in text.items()}
 
     @classmethod
-    def draw(cls, rng, need, canonical=False):
+    def draw(cls, rng, need, canonical=False, stress=False):
+        """stress: every payload gets a boundary length (names, versions, architecture names,
+        qualifiers, profile names of 1 .. 8193 characters, epochs of up to 12 and more digits)"""
         text = {}
         for kind in PAYLOAD_KINDS:
             n = need.get(kind, 0)
@@ -158,9 +217,9 @@ class Conc:
             else:
                 vals = []
                 while len(vals) < n:
-                    s = gen_payload(rng, kind)
-                    if s not in vals:
-                        vals.append(s)
+                    s = gen_payload(rng, kind, boundary_length(rng) if stress else None)
+                    if s not in vals or (stress and len(s) < 3):
+                        vals.append(s if s not in vals else s + str(len(vals)))
             text[kind] = [None] + vals
         return cls(text)
 
@@ -218,24 +277,60 @@ def need_of(rel):
     return need
 
 
-def build(rel, conc):
-    """abstract structure -> exactly the Python form parse_relations returns"""
+KEYS = ("name", "archqual", "version", "arch", "restrictions")
+
+
+def _perms(xs):
+    if len(xs) <= 1:
+        return [list(xs)]
+    return [[x] + p for i, x in enumerate(xs) for p in _perms(xs[:i] + xs[i + 1:])]
+
+
+KEY_ORDERS = _perms(list(KEYS))          # all 120 insertion orders of the five documented keys
+
+
+def build(rel, conc, order=None, containers="list"):
+    """abstract structure -> the Python form parse_relations returns.  What the abstract structure
+    does not have is a dimension of the concretization:
+      order       None: keys inserted in the order of parse_relations; n: atom i gets the
+                  insertion order KEY_ORDERS[(n + 37 * i) % 120] -- an equal dict, the same structure
+      containers  "list" (what parse_relations returns) / "tuple": the arch list, the formula and
+                  its groups are tuples / "plain": the entries are plain tuples, not namedtuples"""
     from debian.deb822 import PkgRelation
     t = conc.text
+    seq = tuple if containers == "tuple" else list
+    AR = (lambda e, x: (e, x)) if containers == "plain" else PkgRelation.ArchRestriction
+    BR = (lambda e, x: (e, x)) if containers == "plain" else PkgRelation.BuildRestriction
     out = []
+    i = 0
     for alts in rel:
         o = []
         for a in alts:
-            o.append({
+            d = {
                 "name": t["name"][a["name"]],
                 "archqual": t["qual"][a["q"]] if a["q"] else None,
                 "version": (OPS[a["v"]["op"] - 1], t["ver"][a["v"]["ver"]]) if a["v"]["some"] else None,
-                "arch": [PkgRelation.ArchRestriction(e["e"], t["arch"][e["id"]]) for e in a["a"]["l"]] if a["a"]["some"] else None,
-                "restrictions": [[PkgRelation.BuildRestriction(e["e"], t["prof"][e["id"]]) for e in g]
-                                 for g in a["r"]["l"]] if a["r"]["some"] else None,
-            })
+                "arch": seq(AR(e["e"], t["arch"][e["id"]]) for e in a["a"]["l"]) if a["a"]["some"] else None,
+                "restrictions": seq(seq(BR(e["e"], t["prof"][e["id"]]) for e in g)
+                                    for g in a["r"]["l"]) if a["r"]["some"] else None,
+            }
+            if order is not None:
+                d = {k: d[k] for k in KEY_ORDERS[(order + 37 * i) % len(KEY_ORDERS)]}
+            o.append(d)
+            i += 1
         out.append(o)
     return out
+
+
+def reinsert_keys(p, order):
+    """a caller re-orders the keys of parsed dicts by pop / re-insert (the dicts stay equal)"""
+    i = 0
+    for alts in p:
+        for d in alts:
+            for k in KEY_ORDERS[(order + 37 * i) % len(KEY_ORDERS)]:
+                if k in d:
+                    d[k] = d.pop(k)
+            i += 1
 
 
 class Malformed(Exception):
@@ -510,15 +605,20 @@ def sharing_structure(r_py):
 NREPARSE = 2
 
 
-def run_history(r_py, o, with_copy=True, snap=None):
+def run_history(r_py, o, with_copy=True, snap=None, order=None):
     """continues the round trip `o` of r: (1) str(r) again after an edited deep copy was formatted,
     (2) NREPARSE times: the caller edits the latest returned structure in place and the SAME string
     is parsed again, (3) a different relation sharing an alternative makes the round trip.
     -> dict of observations"""
     from debian.deb822 import PkgRelation
-    h = {"exc": "", "fmtsame": True, "rc": None, "o_rc": None, "re": [], "r_share": None, "o_share": None}
-    stage = "PkgRelation.str (second time)"
+    h = {"exc": "", "fmtsame": True, "rc": None, "o_rc": None, "re": [], "r_share": None, "o_share": None,
+         "reordered": None}
+    stage = "PkgRelation.str of the parse with re-inserted keys"
     try:
+        if order is not None:
+            reinsert_keys(o["p"], order + 1)        # d[k] = d.pop(k): the parsed dicts stay equal
+            h["reordered"] = PkgRelation.str(o["p"])
+        stage = "PkgRelation.str (second time)"
         if with_copy:
             h["rc"] = edited_copy(r_py)
             if with_copy == "fmt":                  # format only (the recorder logs the copy as its own trace)
@@ -550,6 +650,9 @@ def judge_history(r_py, o, h):
     was parsed or edited before (PkgRelationMemo: MemoTransparent)"""
     if h["exc"]:
         return "after the caller edited the result of parse_relations(%r) in place: raised %s" % (o["s"], h["exc"])
+    if h["reordered"] is not None and h["reordered"] != o["s"]:
+        return ("str of the structure parse_relations(%r) returned, after the caller re-inserted its dict keys in "
+                "another order (d[k] = d.pop(k)), = %r" % (o["s"], h["reordered"]))
     if not h["fmtsame"]:
         return "str(r) no longer gives %r after an edited copy of r was formatted" % (o["s"],)
     if h["o_rc"] is not None:
@@ -604,11 +707,22 @@ def deb822_path(ctx, s, r_py):
         ctx.drift("relations property raised %s: %s for %r" % (type(e).__name__, e, s))
 
 
-def check_case(ctx, rel_abs, codes, conc, diag, with_copy=True, history=True):
-    """one concretization of one TLC case; returns (message or None, produced string)"""
-    r_py = build(rel_abs, conc)
+def check_case(ctx, rel_abs, codes, conc, diag, with_copy=True, history=True, order=None, variants=False):
+    """one concretization of one TLC case; returns (message or None, produced string, structure).
+    order: key insertion order of the input dicts (see build); variants: also the container-type
+    variants of the same structure"""
+    from debian.deb822 import PkgRelation
+    r_py = build(rel_abs, conc, order=order)
     o = run_real(r_py)
     msg = judge(r_py, o)
+    if msg is None and order is not None:
+        # an equal structure (keys inserted in the order of parse_relations) must format identically
+        try:
+            s_canon = PkgRelation.str(build(rel_abs, conc))
+        except Exception as e:       # noqa: BLE001 -- observation
+            s_canon = "raised %s: %s" % (type(e).__name__, e)
+        if s_canon != o["s"]:
+            msg = "two equal structures (dict keys inserted in different orders) format differently: %r and %r" % (o["s"], s_canon)
     if msg is None:
         if diag is not None:
             want = tokens_to_text(codes, conc)
@@ -621,11 +735,42 @@ def check_case(ctx, rel_abs, codes, conc, diag, with_copy=True, history=True):
                 diag["types"] = diag.get("types", 0) + 1
                 if diag["types"] <= 3:
                     ctx.drift("%s for %r" % (td, o["s"]))
-        if history:
-            msg = judge_history(r_py, o, run_history(r_py, o, with_copy=with_copy))
-            if msg:
-                msg = "[history] " + msg
+        if variants:
+            msg = container_variants(rel_abs, conc, r_py, o["s"], diag)
+    if msg is None and history:
+        msg = judge_history(r_py, o, run_history(r_py, o, with_copy=with_copy, order=order))
+        if msg:
+            msg = "[history] " + msg
     return msg, o["s"], r_py
+
+
+def container_variants(rel_abs, conc, r_py, s, diag):
+    """the same structure with other container types: tuples for the arch list / the formula / its
+    groups, plain tuples for the entries.  Where the formatter tolerates the input (no exception:
+    rejecting it is unspecified) it must write the same string, which parses back to r."""
+    from debian.deb822 import PkgRelation
+    for kind in ("tuple", "plain"):
+        key = "containers_%s" % kind
+        try:
+            with warnings.catch_warnings(record=True):
+                warnings.simplefilter("always")
+                sv = PkgRelation.str(build(rel_abs, conc, containers=kind))
+        except Exception as e:       # noqa: BLE001 -- unspecified: the API does not promise to accept them
+            diag[key + "_rejected_" + type(e).__name__] = diag.get(key + "_rejected_" + type(e).__name__, 0) + 1
+            continue
+        diag[key + "_tolerated"] = diag.get(key + "_tolerated", 0) + 1
+        if sv != s:
+            return "the same structure with %s containers formats as %r, with lists and namedtuples as %r" % (kind, sv, s)
+    return None
+
+
+def big_variant(r_py, n, how):
+    """the structure of a case with a boundary COUNT: its conjuncts (how = 'conj') or the alternatives
+    of its first conjunct (how = 'alt') repeated up to n items -- identical items included"""
+    if how == "conj":
+        return [copy.deepcopy(r_py[i % len(r_py)]) for i in range(n)]
+    first = [copy.deepcopy(r_py[0][i % len(r_py[0])]) for i in range(n)]
+    return [first] + copy.deepcopy(r_py[1:])
 
 
 # ------------------------------------------------------------------ TLC output
@@ -695,22 +840,25 @@ def spec_negative_controls(ctx, quick=False):
         cfg = base.replace("%s = FALSE" % const, "%s = TRUE" % const)
         assert cfg != base
         cfg = re.sub(r"(?m)^INVARIANT (?!%s$).*\n" % inv, "", cfg)
-        r = ctx.tlc("PkgRelation", cfg, workers=1, count=False, java_opts=["-XX:ParallelGCThreads=2"])
+        r = ctx.tlc("PkgRelation", cfg, workers=1, count=False, java_opts=["-XX:ParallelGCThreads=2", "-Xss64m"])
         if r.violated != inv:
             raise core.MachineryError("negative control %s: expected TLC to report %s, got %r" % (const, inv, r.violated))
         done.append("%s -> %s" % (const, inv))
+    if not quick:
+        # the small configuration itself, every switch off: all 24 key orders, FormatIgnoresKeyOrder holds
+        ctx.tlc_must_hold("PkgRelation", "MC_PkgRelation_neg.cfg", workers=2, java_opts=["-XX:ParallelGCThreads=2", "-Xss64m"])
     # the history model: a memo layer in front of the reference parser is invisible unless its results
     # share nested lists with it
     with open(os.path.join(core.SPEC, "MC_PkgRelationMemo.cfg")) as f:
         base = f.read()
-    r = ctx.tlc("PkgRelationMemo", "MC_PkgRelationMemo.cfg", workers=1, java_opts=["-XX:ParallelGCThreads=2"])
+    r = ctx.tlc("PkgRelationMemo", "MC_PkgRelationMemo.cfg", workers=1, java_opts=["-XX:ParallelGCThreads=2", "-Xss64m"])
     if r.violated:
         raise core.MachineryError("specification PkgRelationMemo violates %s\n%s" % (r.violated, r.tail))
     for deep in ("FALSE",) if quick else ("FALSE", "TRUE"):
         cfg = base.replace("SharedNested = FALSE", "SharedNested = TRUE").replace("DeepStore = FALSE", "DeepStore = " + deep)
         assert cfg != base
         cfg = re.sub(r"(?m)^INVARIANT (?!MemoTransparent$).*\n", "", cfg)
-        r = ctx.tlc("PkgRelationMemo", cfg, workers=1, count=False, java_opts=["-XX:ParallelGCThreads=2"])
+        r = ctx.tlc("PkgRelationMemo", cfg, workers=1, count=False, java_opts=["-XX:ParallelGCThreads=2", "-Xss64m"])
         if r.violated != "MemoTransparent":
             raise core.MachineryError("negative control SharedNested (DeepStore = %s): expected TLC to report MemoTransparent, got %r" % (deep, r.violated))
         done.append("SharedNested%s -> MemoTransparent (PkgRelationMemo)" % (" + DeepStore" if deep == "TRUE" else ""))
@@ -749,16 +897,17 @@ def prepare_replay(ctx, quick):
     import multiprocessing
     _W.update(seed=ctx.seed, quick=quick,
               canon=Conc.draw(ctx.rng, FULL_NEED, canonical=True),
-              pool=[Conc.draw(ctx.rng, FULL_NEED) for _ in range(256)])
+              pool=[Conc.draw(ctx.rng, FULL_NEED) for _ in range(256)],
+              stress=[Conc.draw(ctx.rng, FULL_NEED, stress=True) for _ in range(48)])
     return multiprocessing.get_context("fork").Pool(3 if quick else 6)
 
 
 def _replay_chunk(lines):
     """worker: replay the CASE lines of one chunk; everything is returned, nothing printed"""
-    quick, seed, canon, pool = _W["quick"], _W["seed"], _W["canon"], _W["pool"]
+    quick, seed, canon, pool, stress = _W["quick"], _W["seed"], _W["canon"], _W["pool"], _W["stress"]
     dr = _Drifts()
     res = {"ncase": 0, "nrun": 0, "nfail": 0, "per_shape": {}, "per_parts": {}, "per_op": {}, "diag": {},
-           "failing": [], "samples": {}, "keys": [], "trivial": 0}
+           "failing": [], "samples": {}, "keys": [], "trivial": 0, "orders": set(), "sizes": {}}
     per_shape, per_parts, per_op, diag = res["per_shape"], res["per_parts"], res["per_op"], res["diag"]
     for line in lines:
         v, h = _case_of(line)
@@ -781,18 +930,38 @@ def _replay_chunk(lines):
             plans = [h % 4 == 0]
         else:
             plans = [True, False] if h % 4 == 0 else [False]
+        hs = h ^ (seed * 40503)
         for canonical in plans:
-            conc = canon if canonical else pool[(h ^ seed * 40503) % len(pool)]
+            # size dimension: every 16th (thorough: 8th) non-canonical concretization has payloads of
+            # boundary lengths (names .. profile names of up to 8193 characters, epochs of up to 19 digits)
+            stressed = (not canonical) and (hs >> 11) % (16 if quick else 8) == 0
+            conc = canon if canonical else stress[hs % len(stress)] if stressed else pool[hs % len(pool)]
+            # key insertion order of the input dicts: one of the 120 per case (a different one per atom)
+            order = (hs >> 4) % len(KEY_ORDERS)
+            res["orders"].add(order)
             # the edited copy of r makes its own round trip for every 4th (thorough: 2nd) case
             msg, s, r_py = check_case(dr, rel_abs, v["t"], conc, diag, with_copy=(h >> 3) % (4 if quick else 2) == 0,
-                                      history=(not quick) or (h >> 7) % 2 == 0)
+                                      history=(not quick) or (h >> 7) % 2 == 0, order=order,
+                                      variants=(hs >> 5) % 8 == 0)
             res["nrun"] += 1
+            big = None
+            if msg is None and (hs >> 6) % (512 if quick else 128) == 1:
+                # count dimension: the same conjuncts / alternatives repeated up to a boundary count
+                big = {"n": BOUNDARY_COUNTS[(hs >> 15) % len(BOUNDARY_COUNTS)], "how": ("conj", "alt")[(hs >> 19) % 2]}
+                r_big = big_variant(r_py, big["n"], big["how"])
+                msg = judge(r_big, run_real(r_big))
+                res["sizes"]["%s x%d" % (big["how"], big["n"])] = res["sizes"].get("%s x%d" % (big["how"], big["n"]), 0) + 1
+                if msg:
+                    msg = "[%d %s] %s" % (big["n"], "conjuncts" if big["how"] == "conj" else "alternatives", msg)
+            if stressed:
+                res["sizes"]["boundary-length payloads"] = res["sizes"].get("boundary-length payloads", 0) + 1
             if msg:
                 res["nfail"] += 1
                 # the smallest failing structures are reported (canonical payload first)
-                key = (msg.startswith("[history]"), sum(len(x) for x in rel_abs), len(v["t"]), not canonical, h)
+                key = (msg.startswith("[history]"), sum(len(x) for x in rel_abs), len(v["t"]), not canonical,
+                       len(s or ""), h)
                 res["failing"].append((key, {"kind": "case", "abstract": rel_abs, "tokens": v["t"], "conc": conc.to_json(),
-                                             "string": s}, msg))
+                                             "string": s, "order": order, "big": big}, msg))
                 res["failing"].sort(key=lambda x: x[0])
                 del res["failing"][20:]
                 break
@@ -828,7 +997,7 @@ def replay_cases(ctx, lines, quick, workers):
             yield buf
     tot = {"ncase": 0, "nrun": 0, "nfail": 0, "trivial": 0}
     per = {"per_shape": {}, "per_parts": {}, "per_op": {}, "diag": {}}
-    failing, samples, drifts = [], {}, []
+    failing, samples, drifts, orders, sizes = [], {}, [], set(), {}
     for res in workers.imap_unordered(_replay_chunk, chunks()):
         inflight.release()
         for k in tot:
@@ -838,6 +1007,9 @@ def replay_cases(ctx, lines, quick, workers):
                 d[k] = d.get(k, 0) + n
         failing = sorted(failing + res["failing"], key=lambda x: x[0])[:20]
         samples.update(res["samples"])
+        orders |= res["orders"]
+        for k, n in res["sizes"].items():
+            sizes[k] = sizes.get(k, 0) + n
         drifts += res["drifts"]
         for h in res["keys"]:
             ctx.distinct.add(("case", h))
@@ -852,6 +1024,8 @@ def replay_cases(ctx, lines, quick, workers):
     ctx.extra["real_round_trips_in_replay"] = tot["nrun"]
     ctx.extra["histories_in_replay"] = ("every 2nd case" if quick else "every case") + ": edit the parsed structure in place, parse the same string again, round trip of a relation sharing an alternative; every %s of these also the round trip of an edited copy and str(r) again" % ("4th" if quick else "2nd")
     ctx.extra["cases_failing"] = tot["nfail"]
+    ctx.extra["key_insertion_orders_used"] = len(orders)
+    ctx.extra["size_stressed_cases"] = dict(sorted(sizes.items()))
     ctx.extra["cases_per_list_shape"] = dict(sorted(per["per_shape"].items()))
     ctx.extra["cases_per_optional_part_combination"] = dict(sorted(per["per_parts"].items()))
     ctx.extra["cases_per_operator"] = dict(sorted(per["per_op"].items()))
@@ -895,34 +1069,47 @@ def unspecified_zone(ctx):
 
 # ------------------------------------------------------------------ (b) recorded executions
 
-def random_structure(rng):
-    """a random concrete relation in the Python form (input generation only)"""
+def random_structure(rng, big=None):
+    """a random concrete relation in the Python form (input generation only).  Dict keys are inserted
+    in a random one of the 120 orders; now and then a payload has a boundary length; big: one of
+    'conj' / 'alt' / 'arch' / 'groups' / 'terms' -- that count is a boundary count (9 .. 101)"""
     from debian.deb822 import PkgRelation
+
+    def payload(kind):
+        return gen_payload(rng, kind, boundary_length(rng) if rng.random() < 0.04 else None)
 
     def entries(maker, kind, n):
         seen, out = set(), []
         for _ in range(n):
-            s = gen_payload(rng, kind)
-            if s in seen and rng.random() < 0.8:
+            s = payload(kind)
+            if s in seen and rng.random() < 0.8 and n <= 3:
                 continue
-            seen.add(s)
+            seen.add(s)                      # (identical entries do occur)
             out.append(maker(rng.random() < 0.5, s))
-        return out or [maker(True, gen_payload(rng, kind))]
-    nconj = rng.choice((1, 1, 2, 2, 3, 4, 5))
+        return out or [maker(True, payload(kind))]
+    count = rng.choice(BOUNDARY_COUNTS if big in ("conj", "alt") else BOUNDARY_COUNTS[:8]) if big else 0
+    nconj = count if big == "conj" else rng.choice((1, 1, 2, 2, 3, 4, 5)) if not big else rng.choice((1, 2))
     rel = []
-    for _ in range(nconj):
+    for ci in range(nconj):
         alts = []
-        for _ in range(rng.choice((1, 1, 1, 2, 2, 3, 4))):
+        nalt = count if (big == "alt" and ci == 0) else rng.choice((1, 1, 1, 2, 2, 3, 4)) if not big else rng.choice((1, 2))
+        for _ in range(nalt):
             heavy = rng.random() < 0.5
             pr = 0.6 if heavy else 0.25
-            alts.append({
-                "name": gen_name(rng),
-                "archqual": rng.choice(QUAL_POOL) if rng.random() < pr else None,
-                "version": (rng.choice(OPS), gen_version(rng)) if rng.random() < pr + 0.1 else None,
-                "arch": entries(PkgRelation.ArchRestriction, "arch", rng.randint(1, 3)) if rng.random() < pr else None,
-                "restrictions": [entries(PkgRelation.BuildRestriction, "prof", rng.randint(1, 3))
-                                 for _ in range(rng.randint(1, 3))] if rng.random() < pr else None,
-            })
+            if big in ("conj", "alt"):
+                pr = 0.15
+            force = big in ("arch", "groups", "terms") and not alts
+            d = {
+                "name": payload("name"),
+                "archqual": payload("qual") if rng.random() < pr else None,
+                "version": (rng.choice(OPS), payload("ver")) if rng.random() < pr + 0.1 else None,
+                "arch": entries(PkgRelation.ArchRestriction, "arch", count if big == "arch" and force else rng.randint(1, 3))
+                if (rng.random() < pr or (big == "arch" and force)) else None,
+                "restrictions": [entries(PkgRelation.BuildRestriction, "prof", count if big == "terms" and force else rng.randint(1, 3))
+                                 for _ in range(count if big == "groups" and force else rng.randint(1, 3))]
+                if (rng.random() < pr or (force and big != "arch")) else None,
+            }
+            alts.append({k: d[k] for k in rng.choice(KEY_ORDERS)})
         rel.append(alts)
     return rel
 
@@ -950,9 +1137,20 @@ def record(r_py):
              "exc": exc,
              "t2": tokenize(o["s2"], conc) if o["s2"] is not None else [],
              "same": o["s2"] is not None and o["s2"] == o["s"],
+             "tc": [],
              "re": [], "rs": [], "ts": [], "ps": [], "warns": False, "sames": False,
              "fmtsame": False}
     if not exc:
+        # an equal structure whose dict keys are inserted in the order of parse_relations
+        try:
+            from debian.deb822 import PkgRelation
+            s_canon = PkgRelation.str([[{k: d[k] for k in KEYS} for d in alts] for alts in r_py])
+            trace["tc"] = tokenize(s_canon, conc)
+            observed["string_of_the_equal_structure_in_parse_key_order"] = s_canon
+        except Exception as e:       # noqa: BLE001 -- observation
+            trace["exc"] = type(e).__name__
+            observed["exception"] = "%s in PkgRelation.str of an equal structure: %s" % (type(e).__name__, e)
+
         def snap(x):
             try:
                 return abstract(x, conc)
@@ -1074,6 +1272,10 @@ def control_traces(traces):
     if t:                                           # the second string differs
         del t["t2"][1]
         out.append(t)
+    t = first(lambda t: len(t["tc"]) >= 3)
+    if t:                                           # an equal structure (other key order) formatted differently
+        t["tc"][1], t["tc"][2] = t["tc"][2], t["tc"][1] + 1
+        out.append(t)
     t = first(lambda t: True)
     if t:                                           # same tokens, but the strings were not equal
         t["same"] = False
@@ -1127,7 +1329,7 @@ def validate(ctx, traces, with_controls=True, workers=2):
     controls = control_traces(traces) if with_controls else []
     if with_controls:
         good = sum(1 for t in traces if t["kind"] == "rt" and not t["exc"] and not t["warn"] and t["same"])
-        if len(controls) < 9 and good >= 50:
+        if len(controls) < 10 and good >= 50:
             raise core.MachineryError("only %d control traces could be built" % len(controls))
         if not controls:
             # the code under test fails every recorded round trip (they are all reported below): there is
@@ -1138,7 +1340,7 @@ def validate(ctx, traces, with_controls=True, workers=2):
         part = traces[lo:lo + BATCH]
         acc, _, r = core.validate_traces(ctx, "TracePkgRelation", "TracePkgRelation.cfg", part, workers=workers,
                                          extra_env={"TRACE_DIAG": "0"}, controls=controls if lo == 0 else (),
-                                         java_opts=["-XX:ParallelGCThreads=2"])
+                                         java_opts=["-XX:ParallelGCThreads=2", "-Xss64m"])
         fmt_drift += sorted({lo + v[0] for v in r.printed.get("REJECT", []) if isinstance(v, list) and v[0] <= len(part)})
         rejected += [lo + i for i in range(1, len(part) + 1) if i not in acc]
     # the shortest rejected round trips first
@@ -1146,7 +1348,7 @@ def validate(ctx, traces, with_controls=True, workers=2):
     if rejected:
         sub = [traces[i - 1] for i in rejected[:20]]
         _, prog, _ = core.validate_traces(ctx, "TracePkgRelation", "TracePkgRelation.cfg", sub,
-                                          extra_env={"TRACE_DIAG": "1"}, java_opts=["-XX:ParallelGCThreads=2"])
+                                          extra_env={"TRACE_DIAG": "1"}, java_opts=["-XX:ParallelGCThreads=2", "-Xss64m"])
         for j, i in enumerate(rejected[:20]):
             info[i] = prog.get(j + 1, 0)
     return rejected, info, fmt_drift
@@ -1163,12 +1365,12 @@ def explain(meta, at):
             ("; warnings %r" % hh["warnings"]) if hh["warnings"] else "", hh["sharing_relation_string"],
             hh["sharing_relation_parse"], ("; warnings %r" % hh["sharing_relation_warnings"]) if hh["sharing_relation_warnings"] else "",
             hh["str_r_unchanged_after_formatting_an_edited_copy"])
-    return "[%s] str(r) = %r; parse_relations returned %s%s; second string %r" % (
+    return "[%s] str(r) = %r; parse_relations returned %s%s; second string %r; an equal structure with its dict keys in parse order formats as %r" % (
         STEP.get(at, "?"), meta["string"], o["parsed"], ("; warnings %r" % o["warnings"]) if o["warnings"] else "",
-        o["second_string"])
+        o["second_string"], o.get("string_of_the_equal_structure_in_parse_key_order"))
 
 
-def make_traces(ctx, n, nprobe):
+def make_traces(ctx, n, nprobe, nbig):
     traces, metas = [], []
     while len(traces) < n:
         r_py = random_structure(ctx.rng)
@@ -1179,6 +1381,10 @@ def make_traces(ctx, n, nprobe):
             tr, meta = record(edited_copy(r_py))
             traces.append(tr)
             metas.append(meta)
+    for i in range(nbig):
+        tr, meta = record(random_structure(ctx.rng, big=("conj", "alt", "arch", "groups", "terms")[i % 5]))
+        traces.append(tr)
+        metas.append(meta)
     for _ in range(nprobe):
         try:
             tr, meta = record_probe(ctx.rng, random_structure(ctx.rng))
@@ -1262,7 +1468,7 @@ def _run_parallel(ctx, quick, cfg, mc_dir, workers):
         unspecified_zone(ctx)
 
         def record_and_validate():
-            traces, metas = make_traces(ctx, *((1000, 300) if quick else (12000, 3000)))
+            traces, metas = make_traces(ctx, *((1000, 300, 10) if quick else (12000, 3000, 100)))
             return (traces, metas) + tuple(validate(ctx, traces, True, 2 if quick else 4))
         f_val = pool.submit(record_and_validate)
         # 4. spec -> code: every CASE line, replayed while TLC is still enumerating
@@ -1286,7 +1492,10 @@ def _run_parallel(ctx, quick, cfg, mc_dir, workers):
 def replay(ctx, case):
     conc = Conc({k: list(v) for k, v in case["conc"].items()})
     if case["kind"] == "case":
-        msg, _, _ = check_case(ctx, case["abstract"], case["tokens"], conc, None)
+        msg, _, r_py = check_case(ctx, case["abstract"], case["tokens"], conc, {}, order=case.get("order"), variants=True)
+        if msg is None and case.get("big"):
+            r_big = big_variant(r_py, case["big"]["n"], case["big"]["how"])
+            msg = judge(r_big, run_real(r_big))
         return msg
     if case["kind"] == "trace":
         r_py = build(case["abstract"], conc)
